@@ -176,6 +176,8 @@ def run(chk: Check):
             cfg["model"] = "mutating"
             cfg["ensemble"] = 1 if i % 8 == 2 else cfg["ensemble"]
             chk.count("model:writes-into-theta")
+        if i % 6 == 2 and cfg["sched"] == "rr" and len({nm for nm, *_ in cfg["lineup"][1:]}) < 2:
+            cfg["lineup"] = list(cfg["lineup"]) + [("RandomUniformSampler", 2, None), ("RSequenceSampler", 2, None)]     # (a line-up the used-folder pairs below can permute)
         if i % 12 == 5:
             # a model that refuses some of the seeds it is handed (raises): whatever happens then - here: the exception ends the run - happens in the same way,
             # at the same point and with the same history for every number of jobs
@@ -191,10 +193,10 @@ def run(chk: Check):
             other["n_jobs"] = rng.choice([2, 4]); changed.append("n_jobs")
         if rng.random() < 0.5:
             other["verbose"] = True; changed.append("verbose")
-        use_folder = rng.random() < 0.5 and cfg["sched"] == "rr"
+        use_folder = (rng.random() < 0.5 or i % 6 == 2) and cfg["sched"] == "rr"
         if use_folder:
             changed.append("folder")
-            if len(cfg["lineup"]) >= 3 and len({nm for nm, *_ in cfg["lineup"][1:]}) >= 2 and rng.random() < 0.7:
+            if len(cfg["lineup"]) >= 3 and len({nm for nm, *_ in cfg["lineup"][1:]}) >= 2 and (rng.random() < 0.7 or i % 6 == 2):
                 # ... and the folder is not empty: it holds the checkpoint of an earlier calibration with the same sampler classes in another order (and another seed)
                 other["leftover"] = dict(cfg, lineup=[cfg["lineup"][0]] + list(reversed(cfg["lineup"][1:])), seed=cfg["seed"] + 1, batches=1)
                 other["leftover"].pop("leftover", None); other["leftover"].pop("model", None)      # (the earlier calibration used a well-behaved model)
